@@ -15,6 +15,7 @@ Stages (see `run`):
     combinators over toy rewrite rules) with the implementation on the same inputs.
 """
 import inspect
+import functools
 import json
 import os
 from fractions import Fraction
@@ -2978,6 +2979,123 @@ def stage_history(ctx, env):
         run_history(env, ctx, steps)
 
 
+# ====================================================================== look-alike atoms; theories in sequence
+def lookalike_atoms(env, rng, ty):
+    """Two DIFFERENT atoms of type `ty` that are spelled the same: the same names and structure, other
+    types inside (`fq q` with q :: nat and with q :: real).  Legal terms; every order on terms that the
+    normalisers sort with has to tell them apart."""
+    T, TT = env.term, env.T
+    fn, vn = rng.choice(["fq", "gq"]), rng.choice(["q", "w"])
+    a_ty, b_ty = rng.sample(["nat", "int", "real"], 2)
+    shape = rng.choice(["app", "app", "app2", "var-under-fun"])
+
+    def mk(at):
+        v = T.Var(vn, TT[at])
+        if shape == "app":
+            return T.Var(fn, env.TFun(TT[at], TT[ty]))(v)
+        if shape == "app2":
+            return T.Var(fn, env.TFun(TT[at], TT[at], TT[ty]))(v, v)
+        return T.Var(fn, env.TFun(env.TFun(TT[at], TT[at]), TT[ty]))(T.Var("hq", env.TFun(TT[at], TT[at])))
+    return mk(a_ty), mk(b_ty)
+
+
+def stage_lookalike(ctx, env):
+    """Canonicity and idempotence on rearrangements whose atoms differ only in types."""
+    T = env.term
+    n = ctx.scale(10, 200)
+    for label, (ce, ty, ops) in NORMALISERS.items():
+        rng = ctx.rng("lookalike/" + label)
+        for _ in range(n):
+            A, B = lookalike_atoms(env, rng, ty)
+            v = env.v[rng.choice(TYVARS[ty])]
+            fold = lambda op, xs: functools.reduce(op, xs)      # noqa
+            mul, add = (lambda x, y: x * y), (lambda x, y: x + y)
+            k = rng.randint(0, 3)
+            if k == 0:
+                ms = [A, B] + ([v] if rng.random() < 0.4 else [])
+                m2 = list(ms)
+                while m2 == ms:
+                    rng.shuffle(m2)
+                t1, t2 = fold(mul, ms), fold(mul, m2)
+            elif k == 1:
+                ms = [A, B] + ([v] if rng.random() < 0.4 else []) + ([A * v] if rng.random() < 0.3 else [])
+                m2 = list(ms)
+                while m2 == ms:
+                    rng.shuffle(m2)
+                t1, t2 = fold(add, ms), fold(add, m2)
+            elif k == 2:
+                t1, t2 = (A + B) * v, v * B + v * A
+            else:
+                t1, t2 = A * B + B * A, T.Number(env.T[ty], 2) * (B * A)
+            ctx.count("lookalike:%s" % label.split(".")[-1])
+            canon_pair(env, ctx, label, ce, t1, t2, "rearrangements over atoms that differ only in types")
+    for label, (ce, op, kind) in PROP_NORMALISERS.items():
+        rng = ctx.rng("lookalike/" + label)
+        for _ in range(n):
+            A, B = lookalike_atoms(env, rng, "bool")
+            o = op if op != "both" else rng.choice(["and", "or"])
+            ms = [A, B] + ([env.v[rng.choice("ABCD")]] if rng.random() < 0.5 else []) + ([T.Not(A)] if rng.random() < 0.3 and kind == "literal" and False else [])
+            m2 = list(ms)
+            while m2 == ms:
+                rng.shuffle(m2)
+            mk = (lambda xs: functools.reduce(lambda x, y: T.And(x, y) if o == "and" else T.Or(x, y), xs))
+            ctx.count("lookalike:%s" % label.split(".")[-1])
+            canon_pair(env, ctx, label, ce, mk(ms), mk(m2), "the same member set, members that differ only in types")
+
+
+THY_HISTORY_RULES = ["mult_comm", "add_comm", "distrib_l", "mult_1_left", "add_assoc", "mult_assoc", "add_0_right", "mult_0_right"]
+
+
+def thy_history_case(env, ctx, name, wrap, record=True):
+    """One theorem name requested by FRESH rewr_conv objects under theories in sequence: the full
+    theory, the theory `nat` cut off just before that theorem (a `limit` context, as the server and the
+    tests use), the full theory again.  Each result is judged in the theory it was requested in: its own
+    error, or an equation about the term whose proof that theory's checker accepts."""
+    from logic import context
+    T = env.term
+    natvars = {k: v for k, v in VARS.items() if v in ("nat", "nat => nat", "bool")}
+    th = env.theory.get_theorem(name)
+    m, n, k = env.v["m"], env.v["n"], env.v["k"]
+    from kernel.term import Inst
+    svs = T.get_svars(th.prop)
+    pool = [m, n, k, m + n, T.Nat(2)]
+    lhs = th.prop.lhs.subst(Inst(**{sv.name: pool[i % len(pool)] for i, sv in enumerate(svs)}))
+    t = env.v["f"](lhs) if wrap != "bare" else lhs
+    leaf = ["rewr", name, False, [], "sorry"]
+    ce = leaf if wrap == "bare" else [wrap, leaf]
+    bad = None
+    try:
+        for phase in ("full", "limited", "full"):
+            if phase == "limited":
+                context.set_context("nat", limit=("thm", name), vars=natvars)
+                if env.theory.thy.has_theorem(name):
+                    break
+            o = judge(env, ctx, "logic.conv.rewr_conv", ce, t, record=False)
+            ctx.count("thy-history:%s:%s:%s" % (phase, wrap, o.kind.split(":")[0] if not o.kind.startswith("violation") else o.kind))
+            if o.kind.startswith("violation"):
+                bad = (phase, o)
+                break
+            if phase == "limited":
+                context.set_context(THEORY, vars=VARS)
+    finally:
+        context.set_context(THEORY, vars=VARS)
+    if bad and record:
+        phase, o = bad
+        ctx.violation("logic.conv.rewr_conv:%s-after-use-in-other-theory" % o.kind.split(":", 1)[1],
+                      "rewr_conv(%r) (through %s) on %s, requested in the %s theory after a use in the other one: %s"
+                      % (name, wrap, t, phase, o.detail), {"kind": "thy-history", "name": name, "wrap": wrap})
+    return bad is not None
+
+
+def stage_thy_history(ctx, env):
+    rng = ctx.rng("thy-history")
+    for _ in range(ctx.scale(6, 60)):
+        name = rng.choice(THY_HISTORY_RULES)
+        wrap = rng.choice(["bare", "try", "top", "bottom", "top_sweep"])
+        ctx.case(("thy-history", name, wrap))
+        thy_history_case(env, ctx, name, wrap)
+
+
 # ====================================================================== entry points
 def run(ctx):
     ctx.coverage["rule"] = (
@@ -3017,6 +3135,8 @@ def run(ctx):
     ctx.log("evaluator pairs done")
     stage_clash(ctx, env)
     stage_history(ctx, env)
+    stage_thy_history(ctx, env)
+    stage_lookalike(ctx, env)
     ctx.log("histories done")
     stage_corr_acnorm(ctx, env)
     stage_corr_conv(ctx, env)
@@ -3161,6 +3281,8 @@ def replay_one(ctx, env, r):
             ctx.violation("%s:identifies-different-polynomials" % r["label"], "same normal form %s for different polynomials" % o1.rhs, r)
     elif k == "history":
         run_history(env, ctx, r["steps"])
+    elif k == "thy-history":
+        thy_history_case(env, ctx, r["name"], r["wrap"])
     elif k == "int_eq":
         int_eq_judge(env, ctx, jt(env, r["t1"]), jt(env, r["t2"]), r["equal"])
 
@@ -3189,6 +3311,21 @@ MANIFEST = {
     "text": "PROVED IN LEAN (about executable models tied to the code by differential runs). "
             "(1) Combinators: conv_lhs / conv_lhs_combinators / conv_lhs_needs_hypothesis -- every nesting of then/else/try/"
             "combination/arg/fun/arg1/binop/abs/sub/repeat/bottom/top/top_sweep returns an equation whose left side is the input. "
+            "(1h) The same combinators WITH HYPOTHESES (HypModel.lean: a conversion returns a sequent hyps |- lhs = rhs; Thm.transitive "
+            "/ combination take the union, the reflexive short cuts of ProofTerm.transitive and combination_conv drop a premise "
+            "with its hypotheses, Thm.abstraction refuses a bound variable free in a hypothesis -- ConvException from abs_conv, "
+            "InvalidDerivationException through top_conv / top_sweep_conv --, rewr_conv(pt, conds) for a first-order rule "
+            "H |- A1 --> .. --> An --> l = r: number of conditions, first_order_match_list on the conditions then the left side, "
+            "unmatched variables, result hypotheses = H + those of every condition): conv_hyps_supplied (every nesting returns a "
+            "sequent about the given term whose hypotheses are all among the hypotheses of the supplied rewrite theorems and "
+            "condition proof terms), conv_hyps_combinators (combinator by combinator for arbitrary argument conversions that keep "
+            "to a set S), rewr_conv_hyps (exactly H + condition hypotheses, only with the right number of conditions), "
+            "abs_conv_hyps_closed (abs_conv never returns a hypothesis with the bound variable free), conv_hyps_needs_hypothesis. "
+            "Tied by the convh stream: random nestings over conditional theorems of nat (min_simp1, sub_add, Suc_Pre, div_refl, "
+            "mod_lt, div_lt, nat_le_zero), unconditional ones and supplied equations with hypotheses, conditions that fit / near-miss "
+            "/ wrong number, conditions carrying hypotheses of their own incl. ones about the variables bound in the term; model and "
+            "real code compared on the whole sequent (SET of hypotheses, lhs, rhs) or the error class, and every real result "
+            "judged by the property oracle (lhs, hypotheses within the supplied, checker). "
             "(2) logic.conj_norm / disj_norm: conjNorm_canonical, disjNorm_canonical, conjNorm_idem, disjNorm_idem, conjNorm_sound, "
             "disjNorm_sound (any strict total order). "
             "(3) The polynomial layer util/poly.py (collect_pairs, Monomial, Polynomial +, *, scale, neg, -, **, compare_fst order) "
@@ -3248,13 +3385,22 @@ MANIFEST = {
             "logic/auto.py, logic/conv.py, data/real.py, data/nat.py, data/integer.py is found by introspection): the same term "
             "normalised with and without conditions in varying orders by auto_conv, real_norm_comparison, combine_atom -- every "
             "result judged on its own (lhs, hypotheses within ITS conditions, checker) and compared with what the same call "
-            "returns from a cleared state.",
+            "returns from a cleared state. THEORIES IN SEQUENCE: a theorem name requested by fresh rewr_conv objects (bare / try / top / "
+            "bottom / top_sweep) in the full theory, in nat cut off before that theorem (limit context), and in the full theory "
+            "again -- each result judged in the theory it was requested in (own error, or checker-accepted there). LOOK-ALIKE "
+            "ATOMS: canonicity and idempotence of all nine normalisers on rearrangements whose atoms are spelled the same and "
+            "differ only in the types inside (fq q at q::nat / q::real).",
     "note": "Outside the modelled fragment: of_nat, division by "
             "non-constants, real powers, nat truncated subtraction (atoms). int: from_poly writes powers that int's convert_to_poly "
             "reads as atoms, so from_poly o convert_to_poly is only claimed stable for reals (and ints without power atoms). "
             "Atoms are ranks under term_ord.fast_compare (C03) -- the model's order on atoms is the order on ranks. "
             "The accepted/refused histogram of every decision procedure is in evidence coverage.decision_procedures. The "
-            "combinator model's equations carry no hypotheses. Trusted: Lean kernel + propext/Classical.choice/Quot.sound, the "
+            "hypothesis model covers the combinators and first-order monomorphic rewr_conv with conditions (rule hypotheses free of "
+            "schematic variables; type instantiation, beta/eta fix-up of higher-order rules and every other Conv class's "
+            "hypotheses are judged on the implementation only). That the supplied conditions are instances of the rule's "
+            "assumptions (so implies_elim applies) is enforced by the model's matching but not stated as a theorem. int "
+            "canonicity holds on fragI only (no exponent 0, powers of atoms); proplogic.norm_full canonicity is oracle-checked, "
+            "not proved; of_nat / nat truncated subtraction are still atoms of the models. Trusted: Lean kernel + propext/Classical.choice/Quot.sound, the "
             "generators and the evaluator, kernel.theory.check_proof as the acceptance judge (level-0 macros trusted, see C05).",
     "design_ref": "DESIGN.md 4/C10, 8.6, 8.10",
 }
